@@ -171,6 +171,70 @@ pub fn write_case(ctx: &mut Ctx, frames: &[Vec<u8>]) {
     }
 }
 
+/// the write half under back-pressure: the peer does not read for a while, both socket buffers are small, so
+/// the flush inside `poll_write` is `Pending` for many packets; afterwards the client keeps reading (which drives
+/// the pending flush) and every written packet must have left as exactly one binary message, once, in order
+pub fn backpressure_case(ctx: &mut Ctx, n: usize) {
+    ctx.oracle_eval("write under back-pressure");
+    let frames: Vec<Vec<u8>> = (0..n).map(|i| {
+        let p = insim::Packet::Msl(insim::insim::Msl { msg: format!("packet number {:06} ................................................................", i), ..Default::default() });
+        Codec::new(mode_of(false)).encode(&p).map(|b| b.to_vec()).unwrap_or_default()
+    }).collect();
+    let want = frames.clone();
+    let got = guard(std::panic::AssertUnwindSafe(move || {
+        rt().block_on(async move {
+            let lsock = tokio::net::TcpSocket::new_v4().unwrap();
+            let _ = lsock.set_recv_buffer_size(4096);
+            lsock.bind("127.0.0.1:0".parse().unwrap()).unwrap();
+            let listener = lsock.listen(4).unwrap();
+            let addr = listener.local_addr().unwrap();
+            let server = tokio::spawn(async move {
+                let (s, _) = listener.accept().await.unwrap();
+                let mut ws = tokio_tungstenite::accept_async(s).await.unwrap();
+                tokio::time::sleep(Duration::from_millis(400)).await;     // stalled peer
+                let mut got: Vec<Vec<u8>> = vec![];
+                loop {
+                    match tokio::time::timeout(Duration::from_millis(600), ws.next()).await {
+                        Ok(Some(Ok(Message::Binary(b)))) => got.push(b.to_vec()),
+                        Ok(Some(Ok(_))) => {},
+                        _ => break,
+                    }
+                }
+                got
+            });
+            let csock = tokio::net::TcpSocket::new_v4().unwrap();
+            let _ = csock.set_send_buffer_size(4096);
+            let tcp = csock.connect(addr).await.unwrap();
+            let (ws, _) = tokio_tungstenite::client_async(format!("ws://{}/connect", addr), tokio_tungstenite::MaybeTlsStream::Plain(tcp)).await.unwrap();
+            let c = insim::net::tokio_impl::WebsocketStream::from(ws);
+            let mut f = insim::net::tokio_impl::Framed::new(Box::new(c), Codec::new(mode_of(false)));
+            for fr in &frames {
+                if let Some(p) = packet_of(false, fr) { let _ = tokio::time::timeout(Duration::from_secs(5), f.write(p)).await; }
+            }
+            // keep the connection polled: a read drives whatever the writer left queued
+            let _ = tokio::time::timeout(Duration::from_millis(1500), f.read()).await;
+            let r = server.await.unwrap_or_default();
+            drop(f);
+            r
+        })
+    }));
+    let input = format!("ws.backpressure {}", n);
+    match got {
+        None => ctx.violation("c20/write/panic", "writing under back-pressure panicked", &input, "messages", "panic"),
+        Some(g) => {
+            ctx.count(&format!("back-pressure: {} of {} packets arrived", g.len(), n));
+            let first_bad = g.iter().zip(want.iter()).position(|(a, b)| a != b);
+            if let Some(i) = first_bad {
+                ctx.violation("c20/write/backpressure-order", "under back-pressure a written packet did not leave as exactly one binary message containing exactly its frame (duplicate, reordered or damaged message)", &input, &format!("message #{} = frame #{}", i, i), &truncate(&hex(&g[i]), 60));
+            } else if g.len() > want.len() {
+                ctx.violation("c20/write/backpressure-extra", "more binary messages than written packets", &input, &n.to_string(), &g.len().to_string());
+            } else if g.len() < want.len() {
+                ctx.violation("c20/write/backpressure-lost", "written packets never left although the connection stayed open and polled", &input, &n.to_string(), &g.len().to_string());
+            }
+        },
+    }
+}
+
 /// distribute a byte stream over binary messages according to a cut mask, sprinkling non-binary messages
 fn distribute(rng: &mut Rng, stream: &[u8], style: u64) -> Vec<M> {
     let mut out = vec![];
@@ -200,6 +264,7 @@ pub fn run(ctx: &mut Ctx) {
                     session_case(ctx, &f, &parse_msgs(msgs), "replay");
                 },
                 ["ws.write", frames] => write_case(ctx, &frames.split('+').map(unhex).collect::<Vec<_>>()),
+                ["ws.backpressure", n] => backpressure_case(ctx, n.parse().unwrap_or(3000)),
                 _ => {},
             }
         }
@@ -257,4 +322,5 @@ pub fn run(ctx: &mut Ctx) {
         let fr: Vec<Vec<u8>> = (0..k).map(|_| ctx.rng.pick(&any).clone()).collect();
         write_case(ctx, &fr);
     }
+    backpressure_case(ctx, if quick { 3000 } else { 20000 });
 }
